@@ -8,6 +8,7 @@ import (
 	"errors"
 	"flag"
 	"fmt"
+	"runtime"
 	"strings"
 	"sync"
 	"time"
@@ -414,6 +415,11 @@ func runL4Case(c *l4Case) (obs *l4Obs) {
 			}
 		}
 	}
+	// keep the handles reachable until the log has been read: a finalizer closing the
+	// cached statement is C10/C11's subject, not this layer's
+	runtime.KeepAlive(stmt)
+	runtime.KeepAlive(db)
+	runtime.KeepAlive(tx)
 	obs.InUse = sqldb.Stats().InUse
 	obs.OpenRows = st.OpenRows()
 	obs.DoubleClose = st.DoubleClose
